@@ -11,7 +11,10 @@ from .evutil import BASE, ev_unwire, ev_view, ev_wire, mk_event, pulse_us
 RULE = ("boundary grid (every ordering of start/end/pulse edges on a 0..4 grid, negative and zero "
         "durations, equal/different data) then seeded random pairs and lists up to 12 events; "
         "non-trivial = distinct canonical case in which at least one merge attempt was made on "
-        "equal data (the rule's window test is exercised)")
+        "equal data (the rule's window test is exercised)"
+        "; round 3 (harness/c08_hist.py): the package-level names aw_transform.heartbeat_*; call sequences in one process on live "
+        "objects (the same / ==-equal with other ids and look-alike data / edited in between / earlier results emptied), every "
+        "call judged alone; heartbeat_reduce on >= 10 001 heartbeats")
 
 DATA = [{"app": "a"}, {"app": "b"}, {"app": "a", "title": "x"}, {}, {"n": 1}, {"n": 1.0}, {"n": True}]
 PULSES = [0, 0.5, 1, 2, 2.5, 5, 0.001, 0.0000005, 1e-6, 3.0000015]
